@@ -2,6 +2,7 @@
 //! `lean/Driver/Text.lean`), generators, and ways to reach the real codec through public API.
 
 pub mod valuegen;
+pub mod msgtext;
 
 use aldrin_core::message::{EmitEvent, Message, MessageOps};
 use aldrin_core::{SerializedValue, ServiceCookie, Value};
